@@ -21,7 +21,8 @@ for p in selftest/mutants/*.patch seeded/*/patch.diff; do
   n=$((n+1))
   out=$(bin/govc check -prop "$prop" -repo "$tmp/wt" -out "$tmp/out" 2>&1)
   if echo "$out" | grep "^VIOLATION property=$prop" | grep -qv "obligation=framework-integrity"; then
-    echo "ok   $p -> $(echo "$out" | grep -c '^VIOLATION') violation(s): $(echo "$out" | grep '^VIOLATION' | grep -v framework-integrity | head -1 | sed 's/.*obligation=//' | cut -c1-110)"
+    conf=$(echo "$out" | grep '^VIOLATION' | grep -vc 'no-failing-input-found')
+    echo "ok   $p -> $(echo "$out" | grep -c '^VIOLATION') violation(s), $conf replay-confirmed: $(echo "$out" | grep '^VIOLATION' | grep -v framework-integrity | head -1 | sed 's/.*obligation=//' | cut -c1-110)"
   else
     echo "MISS $p (no violation reported for $prop)"; fail=$((fail+1))
   fi
